@@ -63,6 +63,7 @@ func (e *Engine) verifyFunction(fc *FuncContract) *FuncResult {
 		st.frontier = "0"
 	}
 	vf.entryFrontier = st.frontier
+	st.entryFrontier = st.frontier
 	// receivers of methods are non-nil unless the contract says otherwise
 	if fn.Signature.Recv() != nil && len(vf.params) > 0 && !fc.Flags["nilrecv"] {
 		if vf.params[0].S == SInt {
@@ -270,6 +271,16 @@ func (e *Engine) trustedBase(prop string, used map[string]bool) []string {
 		}
 		s += ")"
 		out = append(out, s)
+	}
+	for k, fc := range e.cs.Funcs {
+		if !used[k] && fc.Kind != "func" {
+			continue
+		}
+		for _, c := range fc.Ensures {
+			if c.Def && (c.Prop == "" || propMatch(c.Prop, prop)) {
+				out = append(out, "definition at return of "+shortFuncName(k)+" (assumed at its call sites, not proved of its body): "+c.Src)
+			}
+		}
 	}
 	for _, l := range e.cs.Lemmas {
 		if l.Axiom && (l.Prop == "" || propMatch(l.Prop, prop)) {
